@@ -6,10 +6,11 @@ comma-separated list".
 namespace C10
 open B
 
-/-- validity as fiber decides it (after F4): an element with a colon must satisfy `utils.IsIPv6`,
-    otherwise one with a dot must satisfy `utils.IsIPv4`, anything else is rejected -/
+/-- validity as fiber decides it (after F4, F5): an element with a colon must satisfy fiber's `isIPv6`
+    (`utils.IsIPv6` and no group of more than four digits), otherwise one with a dot must satisfy
+    `utils.IsIPv4`, anything else is rejected -/
 def utilsValid (s : Bytes) : Bool :=
-  if s.contains 58 then isIPv6 s else if s.contains 46 then isIPv4 s else false
+  if s.contains 58 then fiberIsIPv6 s else if s.contains 46 then isIPv4 s else false
 
 /-! ### small list facts -/
 
@@ -122,6 +123,9 @@ theorem isIPv6_single_colon (t : Bytes) (h : t.head? ≠ some 58) : isIPv6 (58 :
     · rename_i t' _ ; exact (this _ (by assumption)).elim
     · cases heq; simp [ipv6Loop, isHexDigit, isDigit]
 
+theorem fiberIsIPv6_single_colon (t : Bytes) (h : t.head? ≠ some 58) : fiberIsIPv6 (58 :: t) = false := by
+  simp [fiberIsIPv6, isIPv6_single_colon t h]
+
 /-! ### the candidate of one loop iteration -/
 
 theorem candidate_eq (c0 : Nat) (seg : Bytes) (hseg : ¬ 44 ∈ seg) (hc0 : c0 ≠ 44) :
@@ -164,7 +168,7 @@ theorem passes_eq_utilsValid (c0 : Nat) (seg : Bytes) :
   · subst hc6
     by_cases hs6 : seg.contains 58 = true
     · simp only [hs6, beq_self_eq_true, Bool.true_or, if_true]
-      cases isIPv6 (trimSp (58 :: seg)) <;> simp
+      cases fiberIsIPv6 (trimSp (58 :: seg)) <;> simp
     · have hs6' : seg.contains 58 = false := by simpa using hs6
       have hhead : (trimRight seg 32).head? ≠ some 58 := by
         intro hh
@@ -175,7 +179,7 @@ theorem passes_eq_utilsValid (c0 : Nat) (seg : Bytes) :
         rw [mem_trimRight _ _ (by decide)] at hm
         have : seg.contains 58 = true := List.contains_iff_mem.2 hm
         rw [hs6'] at this; cases this
-      rw [trimSp_cons 58 seg (by decide), isIPv6_single_colon _ hhead, isIPv4_colon, hs6']
+      rw [trimSp_cons 58 seg (by decide), fiberIsIPv6_single_colon _ hhead, isIPv4_colon, hs6']
       cases seg.contains 46 <;> simp
   · have h6 : ((58 : Nat) == c0) = false := by
       have : ¬ (58 : Nat) = c0 := fun e => hc6 e.symm
@@ -184,12 +188,12 @@ theorem passes_eq_utilsValid (c0 : Nat) (seg : Bytes) :
     · subst hc4
       rw [trimSp_cons 46 seg (by decide), isIPv4_dot]
       simp only [h6, Bool.false_or]
-      cases seg.contains 58 <;> cases seg.contains 46 <;> cases isIPv6 (46 :: trimRight seg 32) <;> simp
+      cases seg.contains 58 <;> cases seg.contains 46 <;> cases fiberIsIPv6 (46 :: trimRight seg 32) <;> simp
     · have h4 : ((46 : Nat) == c0) = false := by
         have : ¬ (46 : Nat) = c0 := fun e => hc4 e.symm
         simpa using this
       simp only [h6, h4, Bool.false_or]
-      cases seg.contains 58 <;> cases seg.contains 46 <;> cases isIPv6 (trimSp (c0 :: seg)) <;>
+      cases seg.contains 58 <;> cases seg.contains 46 <;> cases fiberIsIPv6 (trimSp (c0 :: seg)) <;>
         cases isIPv4 (trimSp (c0 :: seg)) <;> simp
 
 theorem passes_comma (seg : Bytes) : passes true seg (trimSp seg) = utilsValid (trimSp seg) := by
@@ -197,7 +201,7 @@ theorem passes_comma (seg : Bytes) : passes true seg (trimSp seg) = utilsValid (
   have h46 := contains_trimSp seg 46 (by decide)
   unfold passes utilsValid
   rw [h58, h46]
-  cases seg.contains 58 <;> cases seg.contains 46 <;> cases isIPv6 (trimSp seg) <;> cases isIPv4 (trimSp seg) <;> simp
+  cases seg.contains 58 <;> cases seg.contains 46 <;> cases fiberIsIPv6 (trimSp seg) <;> cases isIPv4 (trimSp seg) <;> simp
 
 theorem utilsValid_nil : utilsValid (trimSp []) = false := by decide
 
